@@ -1,5 +1,4 @@
 """C11 — only spec-conforming inputs create a process; defaults applied, inputs immutable."""
-import copy
 import logging
 import multiprocessing as mp
 
@@ -11,8 +10,8 @@ ASSUMPTIONS = [
     'validators and callable defaults are pure oracles (the harness uses "reject every value mentioning atom n" and constant callables)',
     'value domain: int and float atoms (isinstance = type tag), plain nested dicts; port names and keys are non-empty strings without dots',
     'port names within a namespace are distinct and input dictionaries have distinct keys (Python dicts)',
-    'raw input mappings are plain dicts; raw_inputs / the caller\'s dictionary staying as given is decided by the correspondence check '
-    '(deep comparison with a copy made before construction), the functional model cannot mutate its argument',
+    'raw_inputs / the caller\'s dictionary staying as given is decided by the correspondence check (comparison with the structure '
+    'recorded before construction: values, and which mappings are dicts / frozen), the functional model cannot mutate its argument',
     'every class is constructed twice with equal inputs: both constructions must agree (the spec, a class-level object, is not changed by a construction)',
 ]
 TRUSTED = ['ports model lean/PlumpyModel/Ports/Model.lean (hand-written, compared with real Process construction per case: accept/reject, '
@@ -47,16 +46,16 @@ def plain(x):
     return x
 
 
-def only_dicts(x):
-    """the caller's structure must still consist of plain dicts"""
-    if isinstance(x, dict):
-        return all(only_dicts(v) for v in x.values())
-    return not pg.is_mapping(x)
+def struct(x):
+    """shape of the caller's structure: which mappings are dicts, which frozen, which atoms"""
+    if pg.is_mapping(x):
+        return ('D' if isinstance(x, dict) else type(x).__name__, {k: struct(v) for k, v in x.items()})
+    return (type(x).__name__, x)
 
 
 def construct_once(P, raw_items, raw_none, sub):
     inputs = None if raw_none else pg.to_py(('D', raw_items))
-    before = copy.deepcopy(inputs)
+    before = struct(inputs)
     r = dict(not_frozen=[], caller_ok=True, raw_ok=True)
     try:
         p = P(inputs=inputs, loop=_loop())
@@ -65,7 +64,7 @@ def construct_once(P, raw_items, raw_none, sub):
         if type(e) is ValueError and e.args and hasattr(e.args[0], 'port'):
             path = ' ' + str(e.args[0].port)
         r['obs'] = f'err {type(e).__name__}{path}'
-        r['caller_ok'] = inputs == before and only_dicts(inputs)
+        r['caller_ok'] = struct(inputs) == before
         return r
     tree = p.inputs
     r['obs'] = 'ok ' + pg.show(tree)
@@ -77,9 +76,10 @@ def construct_once(P, raw_items, raw_none, sub):
             m = m[k]
         if not (pg.is_mapping(m) and pg.is_frozen(m)):
             r['not_frozen'].append('.'.join(path))
-    r['caller_ok'] = inputs == before and only_dicts(inputs)
+    r['caller_ok'] = struct(inputs) == before
     ri = p.raw_inputs
-    r['raw_ok'] = (ri is None and before is None) or (ri is not None and before is not None and plain(ri) == before)
+    r['raw_ok'] = (ri is None and inputs is None) or (ri is not None and inputs is not None and pg.is_frozen(ri)
+                                                       and struct(dict(ri)) == before)
     return r
 
 
@@ -106,7 +106,7 @@ def norm_items(items):
     """dictionary semantics: distinct keys at every level"""
     d = {}
     for k, v in items:
-        d[k] = ('D', norm_items(v[1])) if v[0] == 'D' else v
+        d[k] = (v[0], norm_items(v[1])) if v[0] != 'A' else v
     return list(d.items())
 
 
@@ -173,7 +173,9 @@ def gen_cases(ctx):
         top, sub = pg.gen_spec(rng, max_nodes=6, depth=2 if rng.random() < 0.8 else 3)
         items = pg.gen_good_items(rng, top, sub, set())
         r = rng.random()
-        if r < 0.68:
+        if r < 0.08:
+            add('random-frozen-values', top, sub, pg.freeze_some(rng, ('D', items))[1])
+        elif r < 0.68:
             add('random-good', top, sub, items, raw_none=(not items and rng.random() < 0.3))
         elif r < 0.9:
             add('random-malformed', top, sub, pg.mutate_items(rng, sub, items))
